@@ -548,6 +548,8 @@ inductive Act
   | other (m : Msg)
   /-- the slave serves the head of its inbox; of the possible outcomes take the first satisfying `pick` -/
   | deliver (pick : St → Bool)
+  /-- the slave serves its whole inbox (each time the first outcome satisfying `pick`) -/
+  | serve (pick : St → Bool)
 
 /-- the master performs the next effect of its handler -/
 def eff1 (S : CSpec) (g : CSt) : Option CSt :=
@@ -570,6 +572,29 @@ def drainN (S : CSpec) : Nat → CSt → Option CSt
         | some g' => drainN S n g'
         | none => none
 
+/-- the slave serves the head of its inbox -/
+def deliver1 (S : CSpec) (pick : St → Bool) (g : CSt) : Option CSt :=
+  match g.inbox with
+  | [] => none
+  | e :: rest =>
+      if (allMsgs S.DX).contains e.2 then
+        if !e.1 && S.isStart e.2 then
+          if g.todo.isEmpty then
+            if S.allowed.contains g.m.leaf then
+              ((step S.DX g.x e.2).find? pick).map fun x' => { g with x := x', inbox := rest }
+            else some { g with inbox := rest }
+          else none
+        else ((step S.DX g.x e.2).find? pick).map fun x' => { g with x := x', inbox := rest }
+      else none
+
+def serveN (S : CSpec) (pick : St → Bool) : Nat → CSt → Option CSt
+  | 0, g => some g
+  | n + 1, g =>
+      if g.inbox.isEmpty then some g
+      else match deliver1 S pick g with
+        | some g' => serveN S pick n g'
+        | none => none
+
 def act (S : CSpec) (g : CSt) : Act → Option CSt
   | .master msg pick =>
       if g.todo.isEmpty && (allMsgs S.DM).contains msg then
@@ -583,19 +608,8 @@ def act (S : CSpec) (g : CSt) : Act → Option CSt
       | _ => none
   | .other m =>
       if (allMsgs S.DX).contains m then some { g with inbox := g.inbox ++ [(false, m)] } else none
-  | .deliver pick =>
-      match g.inbox with
-      | [] => none
-      | e :: rest =>
-          if (allMsgs S.DX).contains e.2 then
-            if !e.1 && S.isStart e.2 then
-              if g.todo.isEmpty then
-                if S.allowed.contains g.m.leaf then
-                  ((step S.DX g.x e.2).find? pick).map fun x' => { g with x := x', inbox := rest }
-                else some { g with inbox := rest }
-              else none
-            else ((step S.DX g.x e.2).find? pick).map fun x' => { g with x := x', inbox := rest }
-          else none
+  | .deliver pick => deliver1 S pick g
+  | .serve pick => serveN S pick g.inbox.length g
 
 def run (S : CSpec) : List Act → CSt → Option CSt
   | [], g => some g
